@@ -242,6 +242,10 @@ def run_shared_dynamic(seed):
             s['fields'].pop('k2', None)
         return a, b_
     a, b_ = sources()
+    # one of the two datasets may compute the field with an @impure function: whether the shared layer accepts a dataset must
+    # not depend on what it was composed with before
+    if rng.random() < 0.35:
+        rng.choice([a, b_])['fields'][rng.choice(['x', 'k1'])]['impure'] = True
     if kind == 'filter':
         p = {'k': 'filter', 'f': 'shpred', 'args': ['k1'], 'table': [[['u'], True], [['v'], False], [['w'], True]]}
     elif kind == 'keep':
@@ -263,8 +267,20 @@ def run_shared_dynamic(seed):
     q = rel.UNIVERSE + rel.FOREIGN + rel.KEYS
     for src in order:
         try:
-            with_shared = b.layer(src) >> shared
-            with_fresh = b.layer(src) >> b.layer(p)
+            built = []
+            for make in (lambda: b.layer(src) >> shared, lambda: b.layer(src) >> b.layer(p)):
+                try:
+                    built.append((make(), None))
+                except Exception as e:
+                    built.append((None, exc_name(e)))
+            if built[0][1] != built[1][1]:
+                problems.append({'kind': 'reuse', 'layer': p, 'source': src,
+                                 'msg': f'a {kind} layer object shared between pipelines: composing it raises {built[0][1]}, a fresh copy at the '
+                                        f'same position raises {built[1][1]}'})
+                continue
+            if built[0][1]:
+                continue
+            with_shared, with_fresh = built[0][0], built[1][0]
             o1 = rel.observe_rel(b, with_shared, fields, q)
             o2 = rel.observe_rel(b, with_fresh, fields, q)
             for key in ('ids', 'ids_err', 'dir', 'values'):
